@@ -123,6 +123,48 @@ def convert_records(res, secs_1904, fracs):
     return recs
 
 
+def file_convert_records(seed, mode="read"):
+    """(seconds, fractions) stored in a file as property and as channel value, read back with the default
+    raw_timestamps=False: what the file hands out (datetime64[us]) against the exact time - the same judgement as
+    `convert', with the file's property value in the place of the scalar and the channel value in the place of the array"""
+    import random
+    from nptdms import TdmsWriter, TdmsFile, ChannelObject, RootObject
+    from nptdms.timestamp import TdmsTimestamp, TimestampArray
+    r = random.Random(seed + 5)
+    S = UNITS["us"]
+    pairs = sorted(set([(0, 0), (0, 1), (0, (1 << 64) - 1), (-1, (1 << 64) - 1), (1, 0), (3 * 10 ** 9, 1 << 63),
+                        (-3 * 10 ** 9, 12345), (86400, 0)] +
+                       [(r.randrange(-(1 << 31), 1 << 32), r.getrandbits(64)) for _ in range(40)]))
+    a = np.array([(f, s) for (s, f) in pairs], dtype=[("second_fractions", "<u8"), ("seconds", "<i8")])
+    buf = io.BytesIO()
+    with TdmsWriter(buf) as w:
+        w.write_segment([RootObject({"t%d" % i: TdmsTimestamp(s, f) for i, (s, f) in enumerate(pairs)}),
+                         ChannelObject("g", "c", TimestampArray(a))])
+    recs = []
+    for mode in (mode,):
+        f = (TdmsFile.read if mode == "read" else TdmsFile.open)(io.BytesIO(buf.getvalue()))
+        data = f["g"]["c"][:]
+        for i, (s, fr) in enumerate(pairs):
+            def us_of(v):
+                try:
+                    v = np.datetime64(v, "us")
+                    if np.isnat(v):
+                        return -(10 ** 17)
+                    return int(v.astype("int64")) + EPOCH_DIFF * S
+                except Exception:  # noqa
+                    return -(10 ** 17)
+            scalar, array = us_of(f.properties["t%d" % i]), us_of(data[i])
+            secb = s + BIAS_S
+            floor_b = secb * S + ((fr * S) >> 64)
+            recs.append({"kind": "convert", "S": limbs(S), "sec": limbs(secb), "frac": limbs(fr),
+                         "floor": limbs(floor_b), "sub": limbs((fr * S) >> 64),
+                         "scalar": limbs(scalar + BIAS_S * S), "array": limbs(array + BIAS_S * S),
+                         "dbg": ["file-" + mode, s, fr]})
+        if mode == "open":
+            f.close()
+    return recs
+
+
 def raw_records(seed):
     """raw timestamps through write -> read -> defragment -> read"""
     import random
